@@ -490,6 +490,7 @@ func runC30(c *Ctx) []Obligation {
 	out = append(out, c.whoMayCall(P, "range-validity.judges", "(x/pocketcore/types.HashRange).isValidRange",
 		[]string{`\(x/pocketcore/types\.MerkleProof\)\.Validate`, `\(x/pocketcore/types\.Msg(Claim|Proof)\)\.ValidateBasic`},
 		"range validity is judged by the verifier (where an invalid sibling means replay) and by the two stateless message checks (root / target only)"))
+	out = append(out, merkleFolding(c, P)...)
 	return out
 }
 
